@@ -4,7 +4,13 @@
    INSERT cast + engines' read-back) and the L4 evaluator model (type soundness).
 2. Correspondence (harness/src/bin/c16.rs vs lean/Drivers/C16.lean, same requests):
      type / ptype : static type from the real TypeSchemaAnalysis vs `typeOf` / `typeOfPlan`
-     ins          : CREATE TABLE + INSERTs + SELECT * on the memory and the disk engine vs model
+     ins          : CREATE TABLE + INSERTs + SELECT * on the memory and the disk engine vs model;
+                    engine `diskre` = disk with shutdown + reopen between CREATE TABLE and the INSERTs
+                    (histories with a reopen: the same rows must be rejected, the catalogued types
+                    and NOT NULL / PRIMARY KEY flags must be the same)
+     ddl / ddlre  : the flags CREATE TABLE catalogues for every option list up to length 3, in the
+                    creating session / after shutdown + reopen of a disk database, vs `catalogOf`
+                    and vs the declaration read from the SQL text (model free)
 3. Model-free oracles on the implementation:
      * runtime array variants and arity of SQL query results vs the static type of the bound and
        of the optimised plan (TypeSchemaAnalysis), on generated queries;
@@ -153,12 +159,16 @@ def render_sql(req):
 def ins_oracle(req, impl_line):
     """Model-free checks of one INSERT scenario's SELECT * result."""
     eng, decls = parse_ins(req)
-    m = re.match(r"ok (.*) ;; variants=\((.*)\) failed=(\d+)$", impl_line)
+    m = re.match(r"ok (.*) ;; variants=\((.*)\) failed=(\d+)(?: reopen=(\S+))?$", impl_line)
     if not m:
         return None, ["malformed"]
     rows = re.findall(r"\(([^()]*)\)", m.group(1))
     variants = m.group(2).split(" ") if m.group(2) else []
     problems = []
+    # engine `diskre`: the catalogued column types / NOT NULL / PRIMARY KEY flags before the shutdown
+    # and after the reopen (compared by the harness, both read from the implementation's catalog)
+    if eng == "diskre" and m.group(4) != "same":
+        problems.append("catalog-changed-by-reopen:%s" % m.group(4))
     if variants and variants != [d[0] for d in decls]:
         problems.append("variant:%s!=%s" % (variants, [d[0] for d in decls]))
     for r in rows:
@@ -219,17 +229,36 @@ def run(ck):
         if i.startswith("harness-error") or m == "bad-request":
             ck.report("machinery:answer", "%s / %s on %s" % (i[:200], m[:200], q[:200]), replay={"request": q}, found_input=False)
             continue
-        if kind in ("type", "ptype", "ddl"):
+        if kind in ("type", "ptype", "ddl", "ddlre"):
             st["model_vs_impl"]["compared"] += 1
             outcomes[kind + ":" + i.split(" ")[0]] += 1
             if i != m:
                 st["model_vs_impl"]["disagree"] += 1
                 # the property (returned columns carry the derived type) is not decided by a static
                 # type alone: the SQL oracle below is the search for a failing input
-                what = ("what CREATE TABLE catalogues (bind_create_table) and the model's catalogOf disagree"
-                        if kind == "ddl" else "typeOf and TypeSchemaAnalysis disagree")
-                ck.report("corr:%s" % kind, "%s on %s: impl=%s model=%s" % (what, q[:200], i, m),
-                          replay={"request": q, "impl": i, "model": m, "stream": "model_vs_impl"}, found_input=False)
+                what = ("what CREATE TABLE catalogues (bind_create_table) and the model's catalogOf disagree" if kind == "ddl"
+                        else "the column's catalogued flags after shutdown + reopen of a disk database are not what CREATE TABLE declared (model: catalogOf)"
+                        if kind == "ddlre" else "typeOf and TypeSchemaAnalysis disagree")
+                # `ddlre`: the declared flags are part of the property (constraints hold over histories
+                # with a reopen), and the request is the failing input
+                ck.report(("corr+prop:%s" if kind == "ddlre" else "corr:%s") % kind, "%s on %s: impl=%s model=%s" % (what, q[:200], i, m),
+                          replay={"request": q, "impl": i, "model": m, "stream": "model_vs_impl"}, found_input=(kind == "ddlre"))
+            # model-free: the nullability the SQL text declares (NOT NULL = PRIMARY KEY anywhere or the
+            # last of NULL / NOT NULL), in the creating session (`ddl`) and
+            # after shutdown + reopen of a disk database (`ddlre`)
+            mm = re.match(r"\(ddl\w* \w+ (\(opts[^)]*\))\)$", q)
+            fm = re.match(r"ok nullable=(\w+) primary=(\w+)$", i)
+            if mm and fm:
+                st["impl_vs_oracle"]["compared"] += 1
+                # (`primary` is only shown: ColumnDesc.is_primary follows the LAST of PRIMARY KEY /
+                # UNIQUE — `primary key unique` leaves it false while the table's key list has the
+                # column; modelled by catalogOf, see docs/C16.md)
+                want = ("false" if declared_not_null(mm.group(1)) else "true",)
+                if fm.groups()[:1] != want:
+                    st["impl_vs_oracle"]["disagree"] += 1
+                    if i == m:   # otherwise reported above
+                        ck.report("prop:%s:flags" % kind, "the catalogued flags nullable=%s primary=%s are not the declared ones (nullable=%s) on %s" % (fm.groups() + want + (q[:200],)),
+                                  replay={"request": q, "impl": i, "model": m, "declared": want}, found_input=True)
             continue
         # ins
         mp = m.split(" ;; ")
@@ -253,7 +282,7 @@ def run(ck):
         engines_differ = False
         if eng == "mem":
             last_mem = (re.sub(r"^\((ins\w*|selcast) mem", r"(\1 disk", q), impl_rows)
-        elif last_mem and last_mem[0] == q:
+        elif last_mem and last_mem[0] == re.sub(r"^\((ins\w*|selcast) diskre", r"(\1 disk", q):
             engines_differ = last_mem[1] != impl_rows
         if engines_differ:
             problems = problems + ["mem!=disk"]
